@@ -672,6 +672,18 @@ mut("F10-flush-repins", "break", ["C02", "C13", "C16"], "flush re-pins the threa
         self.schedule_collection();""", """        self.push_to_global(guard);
         self.schedule_collection();
         self.repin_without_collect();""")], ["EBR-COLLECT-OUTERMOST"])
+mut("cell-rmw-handle-count-spans-finalize", "break", ["C16", "C20"], "release_handle writes the handle count back after finalize",
+    [ed(I, """        debug_assert!(handle_count >= 1);
+        self.handle_count.set(handle_count - 1);
+
+        if guard_count == 0 && handle_count == 1 {
+            self.finalize();
+        }""", """        debug_assert!(handle_count >= 1);
+        if guard_count == 0 && handle_count == 1 {
+            self.handle_count.set(0);
+            self.finalize();
+        }
+        self.handle_count.set(handle_count - 1);""")], ["EBR-CELL-RMW"])
 mut("rev-F11-stale-guard-count", "break", ["C16"], "unpin writes back the count read before the collection again",
     [ed(I, """        // Read the count again: a destructor run by the collection above may have created a
         // guard that is still alive (e.g. stored in a thread-local).
